@@ -128,19 +128,22 @@ static void helper_tests(int n)
 /* ------------------------------------------------------------------------------------------ */
 /* recording custom allocator */
 static long al_live, al_calls, al_frees;
-static void *al_malloc(void *st, size_t sz) { (void)st; al_live++; al_calls++; return malloc(sz); }
-static void *al_calloc(void *st, size_t n, size_t sz) { (void)st; al_live++; al_calls++; return calloc(n, sz); }
-static void *al_realloc(void *st, void *p, size_t sz) { (void)st; if (!p) { al_live++; al_calls++; } return realloc(p, sz); }
+/* (called from the resize worker thread too: atomic counters) */
+static void al_inc(void) { __atomic_add_fetch(&al_live, 1, __ATOMIC_SEQ_CST); __atomic_add_fetch(&al_calls, 1, __ATOMIC_SEQ_CST); }
+static void al_dec(void) { __atomic_sub_fetch(&al_live, 1, __ATOMIC_SEQ_CST); __atomic_add_fetch(&al_frees, 1, __ATOMIC_SEQ_CST); }
+static void *al_malloc(void *st, size_t sz) { (void)st; al_inc(); return malloc(sz); }
+static void *al_calloc(void *st, size_t n, size_t sz) { (void)st; al_inc(); return calloc(n, sz); }
+static void *al_realloc(void *st, void *p, size_t sz) { (void)st; if (!p) al_inc(); return realloc(p, sz); }
 static void *al_aligned(void *st, size_t a, size_t sz)
 {
 	void *p;
 	(void)st;
 	if (posix_memalign(&p, a, sz))
 		return NULL;
-	al_live++; al_calls++;
+	al_inc();
 	return p;
 }
-static void al_free(void *st, void *p) { (void)st; if (p) { al_live--; al_frees++; } free(p); }
+static void al_free(void *st, void *p) { (void)st; if (p) al_dec(); free(p); }
 static struct cds_lfht_alloc rec_alloc = {
 	.malloc = al_malloc, .calloc = al_calloc, .realloc = al_realloc,
 	.aligned_alloc = al_aligned, .free = al_free, .state = NULL,
@@ -649,8 +652,8 @@ static void pick_cfg(struct cfg *c)
 	c->min = gm[rn(sizeof gm / sizeof gm[0])];
 	c->max = gx[rn(sizeof gx / sizeof gx[0])];
 	if (big && rn(2)) {
-		c->init = 1UL << (10 + rn(5));
-		c->max = rn(3) ? 1UL << (12 + rn(10)) : 0;
+		c->init = 1UL << (9 + rn(4));
+		c->max = rn(3) ? 1UL << (11 + rn(11)) : 0;
 	}
 	c->flags = rn(4);
 	c->mm = rn(4);
@@ -822,7 +825,7 @@ int main(int argc, char **argv)
 	for (ci = 5; ci < argc; ci++) {
 		if (!strcmp(argv[ci], "big")) {
 			big = 1;
-			size_limit = 1UL << 16;
+			size_limit = 1UL << 13;
 		} else if (!strcmp(argv[ci], "nohelper")) {
 			nohelper = 1;
 		}
